@@ -60,6 +60,10 @@ CHECKS = {
          "Every program with at most 2 (quick) / 3 (thorough) constructs of the tinyfo profile (annotated functions, + -, comparisons, && || not, if/elif/else, records and unions with match, slices, pairs and destructuring, pipes, partial application, package_info calls) is first given to tinyfo alone - a rejected program is outside the quantifier and only counted, per construct - and every accepted program is compiled and run from tinyfo's Go and from fc's Go: both stdouts must equal the reference evaluator's output.",
          "A reduced .foi (tinyfo cannot read pkg_all.foi); slice literals in argument position are parenthesised, the form tinyfo accepts. The shared partial-application finding is attributed by the defect model.",
          "DESIGN.md C17"),
+ "C06": ("deviation-bounded exhaustive exploration of layouts (the printer's layout decisions are the choice points of the explorer) over exhaustively generated programs and the boundary corpus; one fc process per layout; metamorphic oracle (bytes of gen_*.go equal those of the default layout)",
+         "Programs: every term with 1 construct over the full alphabet, every term with 2 constructs over the core (quick) / all (thorough) block-owning constructs, and the hand-kept corpus. Layout points: block indentation +2/+1/+4/+7, arm column +0/+1/+2, 0-2 blank lines and 5 kinds of own-line comments before every statement, arm and definition, 5 kinds of line ends, if on one or several lines, let right-hand side / arm body / lambda body / function body on the same or next line, a break before each |> at 3 columns, 3 ends of file. Every layout with at most 1 deviation (thorough: 2 on the corpus and the 1-construct programs) must give byte-identical output and exit 0. Converse clause: 4 pairs of programs differing only in the block a statement belongs to must each be stable and must differ from each other.",
+         "That the default layout means what the abstract program says is C01's job on the same generator. Omitting the final newline, breaking a line after an operator, tokens after a multi-line comment on its last line and tab indentation are not in the layout grammar.",
+         "DESIGN.md C06"),
 }
 NOT_APPLICABLE = []
 
